@@ -196,6 +196,11 @@ def g3_line_accounting(o):
             out.append(("G3", {"what": "scanner was read again after EOF", "reads": len(rs), "first_eof": eofs[0]}))
         if N is not None and eofs and rs[eofs[0]][0] != N + 1:
             out.append(("G3", {"what": "EOF token not at line N+1", "N": N, "eof_line": rs[eofs[0]][0]}))
+    if N is None:
+        # scanner object / file input: the scanner's own EOF token tells the number of lines
+        eof_lines = [l for _, l, e in log.reads if e]
+        if eof_lines:
+            N = eof_lines[0] - 1
     # builder side
     delivered = [l for l, _ in log.builds]
     nums = [l for l in delivered if l != "EOF"]
